@@ -4,6 +4,7 @@
 #define TETL_RATIO_DIVIDE_HPP
 
 #include <etl/_ratio/ratio.hpp>
+#include <etl/_ratio/ratio_multiply.hpp>
 
 namespace etl {
 
@@ -13,7 +14,7 @@ template <typename R1, typename R2>
 struct ratio_divide_impl {
     static_assert(R2::num != 0, "division by zero");
 
-    using type = typename ratio<R1::num * R2::den, R1::den * R2::num>::type;
+    using type = typename ratio_multiply_impl<R1, ratio<R2::den, R2::num>>::type;
 };
 
 } // namespace detail
